@@ -89,6 +89,14 @@ PROPS = {
         "level_text": "Machine-checked theorems (Lean 4), for every state at which a line can be entered: the exact post-edit state; CONT gives CAN'T CONTINUE, RETURN gives RETURN WITHOUT GOSUB, NEXT gives NEXT WITHOUT FOR, READ rebuilds the cursor from the edited program, a former function is no function; a rejected edit leaves breakpoint, loops, functions, data cursor, lines, variables, arrays (and the stack when a breakpoint is pending) untouched. Correspondence: programs suspended at every kind of point x 5 edit kinds x 6 probes, implementation vs model incl. snapshots, with probe outcomes as oracle.",
         "level_note": "Trusted: Lean kernel; hand-written model validated by sampling.",
     },
+    "C14": {
+        "what": "table facts behind the LIST fixed point: every keyword/operator spelling re-tokenizes to its own token (also before a blank); shape of a LIST line; spelling of DATA strings (quote rule) and of a numeral after an identifier",
+        "theorems": ["kw_spelling_roundtrip", "kw_then_blank", "list_line_shape", "data_string_spelling", "numeral_after_identifier", "numeral_elsewhere"],
+        "open": ["list_fixpoint for arbitrary token lists (needs C12's whole-line normal form + NumOps respelling law parse(render x) = x)", "parseData (renderData items) = items", "same RUN behaviour (follows from equal token lists by determinism)"],
+        "slices": ["c14"],
+        "level_text": "Machine-checked table facts and spelling rules (Lean 4) that the LIST fixed-point argument rests on: all 39 keyword/operator spellings read from tokenizer.rs re-tokenize to exactly their own token; DATA string quote rule; numeral-after-identifier rule. The fixed-point theorem for arbitrary stored lines is not yet proved; the check rests for it on the correspondence slice (store -> LIST -> reload into a fresh interpreter -> LIST, RUN of both with a READ/PRINT tail that dumps every DATA item; implementation vs model) and on the oracle (identical listing, identical stored tokens, identical transcripts). This slice found a genuine defect on the pinned tree (PRINT A .5 listed as PRINT A 0.5, which reloads as A0 0.5), repaired by fix commit 99b8efc.",
+        "level_note": "PARTIAL proof. Trusted: Lean kernel, extractor, NumOps law parse(render x) = x for finite x (tested by the num slice).",
+    },
     "C16": {
         "what": "each growth site of stack/arrays/variables respects its cap or typing rule: GOSUB and FN frames <= 32 with OUT OF MEMORY at the cap and the stack untouched, created arrays have prod(dims) cells <= 10000 and the kind of their suffix, scalars stored only with matching suffix",
         "theorems": ["caps", "gosub_cap", "call_cap", "dimSizes_spec", "create_spec", "setVar_typed"],
